@@ -435,4 +435,41 @@ DMRS. -/
 def RstrLinked (m : MRS) (reps : Reps) : Bool :=
   m.rels.all (fun e => e.args.all (fun a => a.1 != RESTRICTION_ROLE || argLinked m reps a.2))
 
+/-- the `EQ` links of a DMRS as edges between node ids. -/
+def eqEdges (d : DMRS) : List (Int × Int) :=
+  (d.links.filter (fun l => l.post = EQ_POST)).map (fun l => (l.start, l.stop))
+
+/-- every scope of `m` is held together by the `EQ` links of its DMRS `d` (argument links inside
+the scope and the `MOD/EQ` links between its representatives): no group of members is cut off
+(the input class of finding F08 is exactly the failure of this). -/
+def ScopesHeld (m : MRS) (d : DMRS) : Bool :=
+  m.rels.zipIdx.all (fun ei => m.rels.zipIdx.all (fun ej =>
+    ei.1.label != ej.1.label ||
+      decide (nidAt ej.2 ∈ bfs (symm (eqEdges d)) (nidAt ei.2))))
+
+/-- does the predication have a scopal argument selecting the scope labelled `lab`?  (directly,
+or through any handle constraint on the argument) -/
+def selects (m : MRS) (e : EP) (lab : Var) : Bool :=
+  (e.outArgs none).any (fun a => a.2 == lab || m.hcons.any (fun hc => hc.hi == a.2 && hc.lo == lab))
+
+/-- the scopal-successor relation between positions. -/
+def selEdges (m : MRS) : List (Nat × Nat) :=
+  m.rels.zipIdx.flatMap (fun ei =>
+    (m.rels.zipIdx.filter (fun ek => selects m ei.1 ek.1.label)).map (fun ek => (ei.2, ek.2)))
+
+/-- `e` takes the intrinsic variable of the non-quantifier `ek` as a non-scopal argument. -/
+def nsArgOf (e ek : EP) : Bool :=
+  !ek.isQuantifier && (e.outArgs (some "xeipu")).any (fun a => ek.iv == some a.2)
+
+/-- no predication takes, as a non-scopal argument, a scopal descendant of another member of its
+own scope (the second blocking test of `scope.representatives` never fires). -/
+def NoDescArg (m : MRS) : Bool :=
+  m.rels.zipIdx.all (fun ei => m.rels.zipIdx.all (fun ej =>
+    ei.2 == ej.2 || ei.1.label != ej.1.label ||
+      (selEdges m).all (fun st => st.1 != ej.2 ||
+        (bfs (selEdges m) st.2).all (fun k =>
+          match m.rels[k]? with
+          | some ek => !nsArgOf ei.1 ek
+          | none => true))))
+
 end Verif.C04
